@@ -209,3 +209,20 @@ pub fn run(tier: Tier) -> i32 {
     rep.guard(floors.load(Ordering::Relaxed) > 0, "one-frame floor never exercised");
     rep.finish()
 }
+
+pub fn replay(v: &serde_json::Value) -> i32 {
+    let params: Vec<MeanVari> = v["params"].as_array().or(v["periodic_pattern"].as_array()).cloned().unwrap_or_default().iter().map(|x| MeanVari(x[0].as_f64().unwrap_or(1.0), x[1].as_f64().unwrap_or(1.0))).collect();
+    let params: Vec<MeanVari> = if let Some(n) = v["states"].as_u64() { (0..n as usize).map(|k| params[k % params.len()]).collect() } else { params };
+    let rep = Report::new("C08", Tier::Quick, "model_checking");
+    let (t, f) = (AtomicU64::new(0), AtomicU64::new(0));
+    match check_model(&params, &rep, &t, &f) {
+        None => {
+            println!("replay: holds for {} states at every lattice speed", params.len());
+            0
+        }
+        Some((k, what, s)) => {
+            println!("replay: {} at speed {}: {}", k, s, what);
+            1
+        }
+    }
+}
